@@ -2,7 +2,7 @@
    bool, option, unit, list, prod, sumbool, sumor and andb/orb are mapped to OCaml's own;
    numbers stay positive/N/Z). Run from the directory that should receive model.ml. *)
 From Coq Require Extraction ExtrOcamlBasic.
-From Chess Require Import Model.Board Model.Game Model.Attack Model.MoveGen Model.Fen Model.Text Model.Search Model.RefSearch.
+From Chess Require Import Model.Board Model.Game Model.Attack Model.MoveGen Model.Fen Model.Text Model.Search Model.RefSearch Model.Budget.
 
 Extraction Language OCaml.
 Set Extraction KeepSingleton.
@@ -19,4 +19,5 @@ Extraction "model.ml"
   QUEEN_SCORES ROOK_SCORES BISHOP_SCORES KNIGHT_SCORES PAWN_SCORES KING_SCORES_MIDDLE KING_SCORES_END
   char_of_piece PGN_LETTER glyph all_kinds
   driver root node fresh_state mkS tempty tlen tfind quiescence depth1 history_bonus KILLER_SLOTS HISTORY_SLOTS
-  chess_rootref chess_nref root_moves standpat QFUEL.
+  chess_rootref chess_nref root_moves standpat QFUEL
+  go_timer go_time side_budget share Z.add Z.mul Z.div Z.modulo.
